@@ -29,11 +29,11 @@ SRV_TECH = ("TLA+ spec AcceptDispatch.tla (accept thread at shared-access granul
             "end-to-end load scenarios on a real Server judged by TLC (ServerLoadTrace.tla)")
 for _p, _ref, _txt in [
     ("C01", "5/C01, 4.1", "Every interleaving of connects, accept micro-steps, worker polls, completions, pause/resume/stop and one fault is explored by TLC for 1..3 workers, 1..2 listeners (TCP+UDS), limits 1..3; the paths are executed on the real Accept/ServerWorker and TLC checks on the measured state that each connection is called exactly once, by the worker it was dispatched to, with its own listener's service, and is never in two places or silently closed. Builder.tla: every ServerBuilder call sequence (multi-address bind, addresses in use, listen, UDS; tokens = positions in the builder's, the accept thread's and the worker's vectors) is model-checked and a sample of the layouts is executed on the real ServerBuilder (clients on every socket, readiness failures, back-pressure, a worker death), the recorded run validated by TLC against the same spec (which call's service answered). Real-thread stress phases end with every connection served."),
-    ("C02", "5/C02, 4.1", "TLC checks queued+in-progress <= limit in every state of the model (incl. between send and counter increment) for limits 1..4 and 1..3 workers; the same predicate is evaluated on every state observed while replaying the model's paths on the real code (measured channel length + live service futures)."),
-    ("C03", "5/C03, 4.1", "TLC checks the no-lost-wake-up invariant at every quiescent state and its liveness form under weak fairness; wrong wake rules are rejected (NEG); the model's paths (completions before/after the accept thread recorded the dispatch) are replayed on the real code, the real loop is iterated until its real poll would block (epoll probe; interests left in the waker queue then count as lost) and TLC evaluates the predicate on the measured state; every schedule ends with a probe client per listener that must be dispatched; end-to-end stress phases on real threads (thousands of short connections from 6-12 client threads, optionally with pause/resume toggling) end with every worker usable at once; random schedules mix faults, commands, errors and back-pressure."),
-    ("C04", "5/C04, 4.1, 4.4", "Round-robin over undisturbed windows is an invariant of the model (rejected for a stuck rotation) and is evaluated on the dispatch log of the real accept loop twice: with the rotation state the accept thread itself reports at every increment, and on windows derived from measured loads only (they start at a settled state with every worker in the rotation and below its limit - lemma C04_BitsTrueWhenCalm, checked by TLC incl. faults and commands); fault schedules with a replaced worker in another slot are replayed; the 512 availability bits are checked exhaustively against Availability.tla; the rotation is cyclic and skips unavailable workers only (C04_CyclicStep in the model; on the real loop from the accept thread's bits recorded at every dispatch, three-worker configs)."),
-    ("C05", "5/C05, 4.1", "TLC explores all sequences of pause/resume/stop, fatal and per-connection accept errors, deadline expiries and connects (TCP and UDS listeners); replayed on the real loop with injected accept errors and virtual time; TLC checks no dispatch while paused (also inside the iterations the driver runs while settling), UDS reachability, and that no listener is stranded at quiescence; every schedule ends with a probe (one more client per listener before the final resume must wait, one after resume and after the back-off time must be dispatched); every transition class of the model (action x accept-thread mode) is replayed in the quick tier."),
-    ("C08", "5/C08, 4.1", "TLC explores a worker dying at every point of a dispatch/completion history with tear-down orders, late availability notifications and replacement (two faults in thorough/corpus); replayed on the real loop where panics and spins are caught as data; TLC checks no panic, no spin, no availability bit without handle, no duplicate handle, re-routing; commands and a fault in one config (a replacement handled during a pause); Builder.tla layouts on the real ServerBuilder: the dispatch that finds the dead worker is re-routed or dropped only when none is left, the replacement builds one service per socket (worker death is observed, not assumed)."),
+    ("C02", "5/C02, 4.1", "TLC checks queued+in-progress <= limit in every state of the model (incl. between send and counter increment) for limits 1..4 and 1..3 workers; the same predicate is evaluated on every state observed while replaying the model's paths on the real code (measured channel length + live service futures); end-to-end stress phases on real threads with overlapping short connections count the service futures alive at once per worker thread inside the services."),
+    ("C03", "5/C03, 4.1", "TLC checks the no-lost-wake-up invariant at every quiescent state and its liveness form under weak fairness; wrong wake rules are rejected (NEG); the model's paths (completions before/after the accept thread recorded the dispatch) are replayed on the real code, the real loop is iterated until its real poll would block (epoll probe; interests left in the waker queue then count as lost) and TLC evaluates the predicate on the measured state; every schedule ends with a probe client per listener that must be dispatched; end-to-end stress phases on real threads (thousands of short connections from 6-12 client threads, optionally with pause/resume toggling) end with every worker usable at once; random schedules mix faults, commands, errors and back-pressure; the predicates that keep the accept thread alive (no panic, no spin) and the listeners live (back-off expiry, earliest deadline) decide C03 as well."),
+    ("C04", "5/C04, 4.1, 4.4", "Round-robin over undisturbed windows is an invariant of the model (rejected for a stuck rotation) and is evaluated on the dispatch log of the real accept loop twice: with the rotation state the accept thread itself reports at every increment, and on windows derived from measured loads only (they start at a settled state with every worker in the rotation and below its limit - lemma C04_BitsTrueWhenCalm, checked by TLC incl. faults and commands); fault schedules with a replaced worker in another slot are replayed; the 512 availability bits are checked exhaustively against Availability.tla; the rotation is cyclic and skips unavailable workers only (C04_CyclicStep in the model; on the real loop from the accept thread's bits recorded at every dispatch, three-worker configs); a connection is sent only to a worker whose bit was set at the last turn of the rotation, or to the one in turn when no bit is set (C04_SendOnlyToMarkedStep; measured at the turn yield point; holds with faults)."),
+    ("C05", "5/C05, 4.1", "TLC explores all sequences of pause/resume/stop, fatal and per-connection accept errors, deadline expiries and connects (TCP and UDS listeners); replayed on the real loop with injected accept errors and virtual time; TLC checks no dispatch while paused (also inside the iterations the driver runs while settling), UDS reachability, and that no listener is stranded at quiescence; every schedule ends with a probe (one more client per listener before the final resume must wait, one after resume and after the back-off time must be dispatched); every transition class of the model (action x accept-thread mode) is replayed in the quick tier; right after every iteration the loop's next poll timeout is no later than the earliest pending back-off deadline (measured on the virtual clock, two listeners in back-off)."),
+    ("C08", "5/C08, 4.1", "TLC explores a worker dying at every point of a dispatch/completion history with tear-down orders, late availability notifications and replacement (two faults in thorough/corpus); replayed on the real loop where panics and spins are caught as data; TLC checks no panic, no spin, no availability bit without handle, no duplicate handle, re-routing; commands and a fault in one config (a replacement handled during a pause); Builder.tla layouts on the real ServerBuilder: the dispatch that finds the dead worker is re-routed or dropped only when none is left, the replacement builds one service per socket (worker death is observed, not assumed); no worker index is ever lost (in the rotation, reported to the server, or on its way back in the waker queue); end-to-end: a worker dying exactly at its limit."),
 ]:
     CLAIMED[_p] = ("server", _ref, SRV_TECH, _txt, SRV_NOTE)
 
@@ -73,11 +73,11 @@ CLAIMED["C12"] = ("service", "5/C12, 4.7", 'TLA+/TLC explicit-state model checki
 
 CLAIMED["C07"] = ("server", "5/C07, 4.2",
     "TLA+ spec Worker.tla (one action = one poll of the ServerWorker future, transcribed branch by branch) model-checked exhaustively by TLC with NEG variants; state-graph paths replayed on the real ServerWorker built in-thread with scripted services under virtual time; per-poll service logs judged by TLC in predicate mode and bound in strict mode (WorkerTrace.tla)",
-    "All readiness scripts (Pending/Ready/Err in every position) of 1..3 services, arrival orders of connections and factory re-creation with pending polls are enumerated by TLC on a transcription of ServerWorker::poll; an edge cover of the model is executed on the real future and TLC checks on the services' own log that a call happens only right after a pass in which every service answered ready, that connections are served in queue order, that only the failing service is re-created, that every failed service IS re-created, and that nothing queued is lost; strict mode additionally shows the real future follows the model poll by poll. End to end through the public API (Builder.tla layouts on the real ServerBuilder): a failed readiness check rebuilds exactly one instance, from that call's own factory; while a service is pending clients wait and are served by their own listener's service afterwards.",
+    "All readiness scripts (Pending/Ready/Err in every position) of 1..3 services, arrival orders of connections and factory re-creation with pending polls are enumerated by TLC on a transcription of ServerWorker::poll; an edge cover of the model is executed on the real future and TLC checks on the services' own log that a call happens only right after a pass in which every service answered ready, that connections are served in queue order, that only the failing service is re-created, that every failed service IS re-created, and that nothing queued is lost; strict mode additionally shows the real future follows the model poll by poll. End to end through the public API (Builder.tla layouts on the real ServerBuilder): a failed readiness check rebuilds exactly one instance, from that call's own factory; while a service is pending clients wait and are served by their own listener's service afterwards (also when the Pending answer comes in the middle of one worker poll while a client connects: real threads, the sweep held 300 ms). An Available worker with a non-empty queue is owed a poll (Worker.tla `owed`, variant MaxPerPoll/Rewake; measured waker flag; bursts of 70-80 connections).",
     SRV_NOTE)
 CLAIMED["C06"] = ("server", "5/C06, 4.2, 4.3",
     "TLA+ specs Worker.tla (worker side) and ServerStop.tla (protocol across command loop, accept thread, workers) model-checked by TLC incl. liveness under fairness and NEG variants; worker-side paths replayed deterministically on the real ServerWorker under virtual time and judged by TLC (WorkerTrace.tla); end-to-end scenarios on a real Server (real threads, sockets, OS signals in a child process) recorded with a global sequence number and judged by TLC (ServerStopTrace.tla)",
-    "TLC explores every interleaving of stop commands (handle and signal kinds, repeated), server command-loop steps, accept-thread exit, worker replies, ticks and connection completions (0..3 per worker, 1..2 workers) (the exiting accept thread closes the workers' queues: WorkerQueueClosed) and checks graceful-waits, no connection torn down during a graceful stop before the timeout (C06_GracefulLetsFinish; variant WakeAcceptFirst = defect F8 rejected), no-dispatch-after-completion, signal mapping and, under fairness, that every stop future and the Server future resolve; the worker's reply value/time and shutdown drain are checked on the real worker future for every model path in virtual time; real-thread runs (graceful/forced, timeout, second stop, dropped future, paused, SIGTERM/SIGINT/SIGQUIT, the server thread held between the two halves of the stop handler) are judged by TLC on recorded events incl. service futures dropped unfinished. ServerHandles.tla: the server's own handle vector across worker replacements (Stop is sent through it) - model-checked, observed through hook H8 after every replacement in end-to-end scenarios with worker deaths before the stop; worker threads blocked by a non-yielding handler; the listener must be closed at completion (a client connecting at the instant the stop future resolves is refused); stop racing new connections; stop issued after completion.",
+    "TLC explores every interleaving of stop commands (handle and signal kinds, repeated), server command-loop steps, accept-thread exit, worker replies, ticks and connection completions (0..3 per worker, 1..2 workers) (the exiting accept thread closes the workers' queues: WorkerQueueClosed) and checks graceful-waits, no connection torn down during a graceful stop before the timeout (C06_GracefulLetsFinish; variant WakeAcceptFirst = defect F8 rejected), no-dispatch-after-completion, signal mapping and, under fairness, that every stop future and the Server future resolve; the worker's reply value/time and shutdown drain are checked on the real worker future for every model path in virtual time; real-thread runs (graceful/forced, timeout, second stop, dropped future, paused, SIGTERM/SIGINT/SIGQUIT, the server thread held between the two halves of the stop handler) are judged by TLC on recorded events incl. service futures dropped unfinished. ServerHandles.tla: the server's own handle vector across worker replacements (Stop is sent through it) - model-checked, observed through hook H8 after every replacement in end-to-end scenarios with worker deaths before the stop; worker threads blocked by a non-yielding handler; the listener must be closed at completion (a client connecting at the instant the stop future resolves is refused); stop racing new connections; stop issued after completion; shutdown_timeout of 2 s / 3 s reached on the real clock; the worker thread stalled across shutdown ticks; the server on a plain Tokio runtime and with system_exit.",
     SRV_NOTE + " End-to-end runs use real time with generous bounds (forced stop must complete within 1.5 s; rejections are re-run before being believed).")
 
 RT_TECH = 'TLA+ design model (spec/rt/ActixRt.tla + RtProps.tla) checked exhaustively with TLC incl. liveness and NEG variants; randomized real-thread driver (harness/rt) records call-interval histories through the public API; TLC evaluates the same property predicates on every prefix of every recorded history (predicate-mode trace validation, spec/rt/ActixRtTrace.tla)'
